@@ -96,6 +96,64 @@ def sdp_search_all_uuids(m1: int, m2: int, mtu: int, pat: int) -> bool:
         return sorted(t.result()) == want and all(len(p) <= mtu for p in sc.sent)
 
 
+def _widen(u, width):
+    """the same UUID written with 2, 4 or 16 bytes"""
+    b = u.to_bytes()                       # little-endian, as bumble stores it
+    if len(b) == width:
+        return core.UUID.from_bytes(b)
+    full = u.to_bytes(force_128=True)
+    if width == 16:
+        return core.UUID.from_bytes(full)
+    return core.UUID.from_bytes(full[12:12 + width]) if width == 4 else core.UUID.from_bytes(full[12:14])
+
+
+@harness(pre=['0 <= m1 <= 3 and 0 <= ws <= 2 and 0 <= wp <= 2'], family='sdp-match', twin=True, timeout=(90, 300),
+         kernels=('bumble.sdp.Server.match_services', 'bumble.sdp.ServiceAttribute.is_uuid_in_value', 'bumble.core.UUID.__eq__'), grid={'pat': [1, 2, 3]},
+         bounds='a record whose membership of two UUIDs is symbolic, the UUIDs STORED with 2, 4 or 16 bytes and the search pattern WRITTEN with 2, 4 or 16 bytes (both symbolic): the record is returned exactly when it contains every pattern UUID, whatever the widths')
+def sdp_search_across_uuid_widths(m1: int, ws: int, wp: int, pat: int) -> bool:
+    ws, wp = [2, 4, 16][C(ws, 0, 2)], [2, 4, 16][C(wp, 0, 2)]
+    with detloop.running() as loop:
+        stored = [_widen(u, ws) for i, u in enumerate((UA, UB)) if (m1 >> i) & 1]
+        server = sdp.Server(None)
+        server.service_records = {0x10001: _record(0x10001, stored, 2, 0x41)}
+        client, cs, sc = _wire(loop, server, 48)
+        t = loop.create_task(client.search_services([_widen(u, wp) for i, u in enumerate((UA, UB)) if (pat >> i) & 1]))
+        loop.run_ready()
+        if not t.done() or t.exception() is not None:
+            return False
+        return sorted(t.result()) == ([0x10001] if m1 & pat == pat else [])
+
+
+@harness(pre=['0 <= lo <= 6 and 0 <= hi <= 6 and lo <= hi and 0 <= single <= 6'], family='sdp-attributes', twin=True, timeout=(90, 300), grid={'op': ['attr', 'search_attr'], 'form': [0, 1, 2]},
+         kernels=('bumble.sdp.Server.get_service_attributes', 'bumble.sdp.Server.on_sdp_service_attribute_request', 'bumble.sdp.Client.get_attributes', 'bumble.sdp.Client.search_attributes'),
+         bounds='a record with attribute ids 0, 1, 3, 4; the client asks for one id range [lo, hi] (0..6, symbolic; one-element ranges and bounds on, below and above existing ids), for a single id, or for a single id followed by a range above it: exactly the attributes whose id is selected come back, each once, in ascending order')
+def sdp_attribute_id_ranges(lo: int, hi: int, single: int, op: str, form: int) -> bool:
+    with detloop.running() as loop:
+        server = sdp.Server(None)
+        rec = _record(0x10001, [UA], 1, 0x41)
+        rec[2] = sdp.ServiceAttribute(0x0003, DE.unsigned_integer_8(7))
+        rec.append(sdp.ServiceAttribute(0x0004, DE.unsigned_integer_8(9)))
+        server.service_records = {0x10001: rec}
+        client, cs, sc = _wire(loop, server, 48)
+        if form == 0:
+            ids, want = [(lo, hi)], [i for i in (0, 1, 3, 4) if lo <= i <= hi]
+        elif form == 1:
+            ids, want = [single], [i for i in (0, 1, 3, 4) if i == single]
+        else:
+            if single >= lo:
+                return True
+            ids, want = [single, (lo, hi)], [i for i in (0, 1, 3, 4) if i == single or lo <= i <= hi]
+        t = loop.create_task(client.get_attributes(0x10001, ids) if op == 'attr' else client.search_attributes([UA], ids))
+        loop.run_ready()
+        if not t.done() or t.exception() is not None:
+            return False
+        r = t.result()
+        attrs = r if op == 'attr' else (r[0] if len(r) == 1 else ([] if not r else None))
+        if attrs is None:
+            return False
+        return [a.id for a in attrs] == want
+
+
 @harness(pre=['(0 <= l1 <= 1 or LO <= l1 <= HI) and 0 <= x <= 255'], family='sdp-continuation', twin=True, timeout=(90, 300),
          kernels=('bumble.sdp.Server.on_sdp_service_attribute_request', 'bumble.sdp.Server.on_sdp_service_search_attribute_request', 'bumble.sdp.Server.check_continuation',
                   'bumble.sdp.Server.get_next_response_payload', 'bumble.sdp.Client.get_attributes', 'bumble.sdp.Client.search_attributes'),
